@@ -708,6 +708,15 @@ func (e *Exec) byteAt(b []*Term, pos *Term) *Term {
 	if len(b) == 0 {
 		return e.ctx.BV(0, 8)
 	}
+	if pos.isConstTree() && len(e.ctx.LeafValues(pos)) <= 64 {
+		// a guarded value set: select per leaf instead of per backing byte
+		return e.ctx.mapLeaves(pos, func(x *Term) *Term {
+			if p := x.SVal(); p >= 0 && p < int64(len(b)) {
+				return b[p]
+			}
+			return e.ctx.BV(0, 8)
+		}, map[int]*Term{})
+	}
 	acc := b[len(b)-1]
 	for i := len(b) - 2; i >= 0; i-- {
 		acc = e.ctx.Ite(e.ctx.Eq(pos, e.ctx.Int(int64(i))), b[i], acc)
